@@ -559,7 +559,7 @@ pub fn run(tier: &str) -> i32 {
     ] {
         let prop = TxLocalProp { kind, alphabet: alphabet(full) };
         let t = Instant::now();
-        let rep = explore(&prop, depth, t + Duration::from_secs_f64(secs), threads(), &merge_wit);
+        let rep = explore_min(&prop, depth, 2, t + Duration::from_secs_f64(secs), threads(), &merge_wit);
         o.cov_add("states", rep.programs);
         o.cov_add("transitions", rep.transitions.max(1));
         o.cov_add("traces_validated_against_impl", rep.programs);
